@@ -81,6 +81,11 @@ def gen_font(rng, n):
                     sx = rng.choice([4, 6, 8, 10, 12, 14, -8, -6]) * 2048
                     sy = sx if rng.random() < 0.4 else rng.choice([4, 5, 6, 8, 10, 12, 14, -8]) * 2048
                     second = second + (sx, sy)
+                elif a != b and rng.random() < 0.35:
+                    # a 2x2 transform (WE_HAVE_A_TWO_BY_TWO): quarter turns, a shear, a mirror with a shear; eighths are exact
+                    m = rng.choice([(0, 16384, -16384, 0), (0, -16384, 16384, 0), (16384, 0, 8192, 16384), (16384, 4096, 0, 16384),
+                                    (-16384, 0, 6144, 12288), (8192, 8192, -8192, 8192)])
+                    second = second + m
                 g = {"name": "g%d" % i, "adv": 700, "components": [(a, 0, 0), second]}
                 if rng.random() < 0.4:
                     # offsets that fit a signed byte, written as bytes (ARG_1_AND_2_ARE_WORDS clear), often negative
